@@ -61,8 +61,15 @@ pub fn evaluate(prog: &asp::Program, mode: Mode, limit: usize, rich: bool, ws: &
         .into_iter()
         .map(|p| (p.symbol, p.arity))
         .collect();
-    let syms = program_syms(prog);
+    let mut syms = program_syms(prog);
     let active = choose_active(&preds, limit, &syms, rich);
+    for v in &active {
+        if let Val::Sym(x) = v {
+            if !syms.contains(x) {
+                syms.push(x.clone());
+            }
+        }
+    }
     let u = Universe::new(&preds, &active);
     let hs = ht_space(u.len());
     let mut out = Outcome {
